@@ -158,7 +158,12 @@ class Run:
         return problems, tuple(versions)
 
 
-def _explore(acc, arg):
+def _key(arg):
+    return ' || '.join(f'{k}x{n}' for k, n in arg[0]) + f' /bound={arg[1]}'
+
+
+def _explore(acc, job):
+    arg, start, expand_only = job
     scenario, bound, cap = arg
     name = ' || '.join(f'{k}x{n}' for k, n in scenario)
     outcomes = set()
@@ -175,23 +180,27 @@ def _explore(acc, arg):
         acc.trace()
         acc.evals()
         acc.add('scheduling-points', len(trace))
+        acc.add(f'schedules[writers {name}]')
         outcomes.add((versions, tuple(p[0] for p in problems)))
         acc.state(h64(('c04b', name, tuple(choices))))
         for kind, detail in problems:
             if kind not in found:
                 found[kind] = (detail, choices, sched.preemptions(trace))
 
-    n, capped = sched.explore(one, bound, max_executions=cap, on_execution=on_exec, weight=_weight)
+    if expand_only:
+        n, kids = sched.explore(one, bound, on_execution=on_exec, weight=_weight, start=[[]], depth_limit=0)
+        acc.emit((_key(arg), kids))
+        if len(acc.samples) < 4:
+            acc.sample({'writers': name, 'first_level_alternatives': len(kids)})
+    else:
+        n, capped = sched.explore(one, bound, max_executions=cap, on_execution=on_exec, weight=_weight, start=start)
+        if capped:
+            acc.cap(f'writers[{name}]', f'a subtree was stopped after {n} schedules')
     for o in outcomes:
         acc.nontrivial(h64(('c04b', name, o)))
-    acc.note(f'writers[{name}]', {'schedules': n, 'distinct_outcomes': len(outcomes), 'preemption_bound': bound, 'capped': capped})
-    if capped:
-        acc.cap(f'writers[{name}]', f'stopped after {n} schedules')
     for kind, (detail, choices, pre) in found.items():
         acc.violation(f'concurrent-writers/{kind}/{name}', {'scenario': name, 'detail': detail, 'schedule': choices, 'preemptions': pre},
                       case={'kind': 'writers', 'scenario': [list(x) for x in scenario], 'schedule': choices})
-    if len(acc.samples) < 4:
-        acc.sample({'writers': name, 'schedules': n, 'delivery_orders_seen': sorted({str(o[0]) for o in outcomes})[:4]})
 
 
 def scenarios(quick):
@@ -211,7 +220,8 @@ def run(ctx):
     bound = 2 if ctx.quick else 3
     jobs = [(s, bound, 1500 if ctx.quick else 40000) for s in scenarios(ctx.quick)]
     ctx.note('writer_scenarios', len(jobs))
-    ctx.pmap(_explore, ctx.rotate(jobs), chunksize=1)
+    ctx.note('writer_preemption_bound', bound)
+    sched.run_partitioned(ctx, _explore, ctx.rotate(jobs), _key, group=8)
 
 
 def replay(ctx, case):
